@@ -192,4 +192,17 @@ theorem chunk_eqStr_iff (c : Chunk) (s : List Char) (h : c.text ≠ [] ∨ s ≠
       | inr h => rw [h1]; exact h
     exact ⟨h2 this, h1⟩
 
+/-- the domain of `==` in the property: str/chunk/text operands, not two plain strings (that is
+Python's own `==`), and not an empty chunk compared directly with a chunk or a str -/
+def EqDomain : Part → Part → Prop
+  | .text _, .text _ => True
+  | .text _, .str _ => True
+  | .str _, .text _ => True
+  | .text _, .chunk _ => True
+  | .chunk _, .text _ => True
+  | .chunk c, .chunk d => c.text ≠ [] ∨ d.text ≠ []
+  | .chunk c, .str s => c.text ≠ [] ∨ s ≠ []
+  | .str s, .chunk c => c.text ≠ [] ∨ s ≠ []
+  | _, _ => False
+
 end CHText
